@@ -396,14 +396,12 @@ Definition judge_1701 (o : hopts) (impl : Z) (flds : list fdesc) (rq : request) 
   match agree spec ec out with
   | 0 => VOk
   | a =>
-    let qfl := if impl =? 0 then NativeQuirk else PortableQuirk in
+    (* The only open deviation is finding 1714: HTTPMappings() lists api.body last.  It is tried FIRST and alone: 1711 / 1712 (the
+       traceback flavours) and 1713 (errors of api.no_body_struct ignored) are repaired in /repo, and an output that merely coincides
+       with an old quirk flavour on the listed order (while the code, consulting api.body last, took another source) must not be
+       classified as one of them.  The quirk flavours stay in HttpMap.v for the `_refuted` examples only. *)
     let flds' := reorder_fields 8 flds in
-    if agree (model_j2t o qfl rq flds jbody) ec out =? 0 then VKnown (if impl =? 0 then FINDING_TRACEBACK_NATIVE else FINDING_TRACEBACK_PORTABLE)
-    else if (agree (model_j2t o Spec rq flds' jbody) ec out =? 0) || (agree (model_j2t o qfl rq flds' jbody) ec out =? 0) then VKnown FINDING_BODY_LAST
-    else if (ec =? 0) && (match spec with HErr _ => true | _ => false end) && existsb (fun q => is_infix q outb) (nbs_candidates 8 o rq flds)
-    then VKnown FINDING_NBS_IGNORED_ERROR
-    else if (ec =? 0) && (match model_j2t o Spec rq flds' jbody with HErr _ => true | _ => false end) && existsb (fun q => is_infix q outb) (nbs_candidates 8 o rq flds')
-    then VKnown FINDING_NBS_IGNORED_ERROR     (* together with 1714: api.body consulted last lets the no_body_struct source win *)
+    if agree (model_j2t o Spec rq flds' jbody) ec out =? 0 then VKnown FINDING_BODY_LAST
     else if a =? 1 then VDrift 1
     else VBad 1 (hres_detail spec)
   end.
